@@ -14,7 +14,7 @@ META = {
     "title": "Dead-code elimination removes only unobservable code",
     "category": "proof",
     "design_ref": "DESIGN.md §5 C13",
-    "lean_modules": ["XdslProofs.C13", "XdslProofs.C13Sem"],
+    "lean_modules": ["XdslProofs.C13", "XdslProofs.C13Sem", "XdslProofs.C13SemCFG"],
     "text": (
         "Lean theorems about the model XdslModel/DCE.lean of would_be_trivially_dead / result_only_effects / "
         "get_effects (incl. RecursiveMemoryEffect), LiveSet.propagate_* with its `while changed` loop (blocks in "
@@ -39,7 +39,29 @@ META = {
         "walker-based erasure; dce_preserves_sem_straightline (for one block of region-free operations, where "
         "would-be-trivially-dead operations are arbitrary functions of their operands and of the effect log and "
         "every other operation appends to the log, the kept operations produce the same log and the same value "
-        "for every kept operation and outer value). The model is tied to /repo by running the real functions on "
+        "for every kept operation and outer value); and on the reference semantics Sem for whole modules with "
+        "nested regions, CFG regions and calls (XdslProofs/C13SemCFG.lean over XdslModel/DCEMini.lean, a module "
+        "tree whose operations carry both the trait flags the pass reads and the MiniIR operation Sem runs): "
+        "dce_preserves_sem_structured (an operation would_be_trivially_dead accepts, with trait flags that agree "
+        "with the operation names on it and on everything nested in it, is quiet in Sem: whenever it runs to "
+        "completion it does not end its block and leaves the effect log, the memory, the symref variables and "
+        "every value it does not define unchanged), dce_preserves_sem_cfg (if the decidable hypotheses `cert` "
+        "hold - a well-sorted module tree with unique ids and well-formed region graphs, operand owners cover "
+        "the MiniIR uses, per region unique block ids / only the last operation of a block has successors, "
+        "which are the blocks its successor positions point at / non-entry blocks end in a terminator, no kept "
+        "operation reads a value defined inside an erased operation or in an erased block, flags agree with "
+        "names on erased operations, every func.func is live - then every run of the original module that ends "
+        "with results is reproduced, same results and same effect log, by what region_dce leaves, with the same "
+        "and every larger fuel; PROVED from the liveness fixpoint and postorder_spec of C24, not assumed: no "
+        "kept operation reads a result of an operation erased from a kept block, every kept block is yielded "
+        "by the post-order iteration, a kept operation branches only to kept blocks), "
+        "dce_pass_preserves_sem (the same for the while-loop of the pass), triv_preserves_sem (the same for the "
+        "walker-based erasure of trivially dead operations to its fixpoint), dce_sem_converse, "
+        "tie_checker_sound (the comparison the driver runs between the zipped tree and a MiniIR program is "
+        "sound), and the two "
+        "counterexamples showing that nothing more holds (dce_ub_not_preserved_counterexample: a dead "
+        "arith.divsi by zero is erased; dce_divergence_not_reflected_counterexample: a dead scf.while that never "
+        "terminates is erased). The model is tied to /repo by running the real functions on "
         "generated modules (test-dialect and harness-defined effect-kind operations with nested multi-block "
         "regions, use cycles, unreachable blocks; one operation with recursive effects holding a harmless and an "
         "observable item at every ordered pair of (region, block) positions; func/arith/cf/scf programs with "
@@ -53,15 +75,26 @@ META = {
         "computation) judges every before/after pair, and the Lean reference semantics `sem` (and, for a "
         "subset, the xDSL interpreter) evaluates the func/arith/cf/scf(/memref) programs before and after every "
         "variant on three inputs each (results - incl. the buffer cells the region operations store to - and "
-        "effect log)."
+        "effect log). For every func/arith/cf/scf(/memref) program of streams A and C and all five variants "
+        "(`once`; `dce` and `canon` against the model of the pass; `walker` and `greedy` against the model of the "
+        "trivially-dead erasure), the driver model `dcemini` zips the model tree (real trait flags) with the MiniIR "
+        "serialisation of the same module, evaluates the hypotheses `cert` / `certPass` / `certTrivAll` of the "
+        "proved theorems, "
+        "and checks that the MiniIR program of the model's result is the serialisation (same value and block "
+        "ids) of what the real pass leaves."
     ),
     "technique": "Lean 4 fixpoint/invariant proofs + differential correspondence + independent removed-set oracle + reference-semantics translation validation",
     "level_note": (
         "Trusted: Lean kernel; hand-written model XdslModel/DCE.lean (tied by correspondence only); the "
         "serialiser props/c13_ir.py (ids, operand owners, trait flags, own effect instances) and vp/miniir.py; "
-        "the reference semantics XdslModel/Sem.lean. Semantic preservation is PROVED for straight-line "
-        "single-block regions only; for CFGs, loops and nested regions it is checked per program by Sem "
-        "(the `…_partial` note of XdslProofs/C13Sem.lean). Programs whose run is UB / out of fuel before the pass are excluded from the result "
+        "the reference semantics XdslModel/Sem.lean. Semantic preservation on Sem is PROVED for region_dce and "
+        "the dce pass on modules with nested regions, CFGs and calls under the decidable hypotheses `cert` "
+        "(XdslProofs/C13SemCFG.lean), which the check evaluates on every generated func/arith/cf/scf program "
+        "(histogram `*.cert.*`; a program outside them is counted as `uncovered`, not reported); it is in "
+        "addition checked per program by Sem. Not proved: erased operations that allocate (Sem numbers "
+        "allocations; per program by Sem only); SSA scoping (no kept operation reads a value defined inside an "
+        "erased operation or in an erased block) and the agreement of trait flags with operation names are "
+        "hypotheses checked per program. Programs whose run is UB / out of fuel before the pass are excluded from the result "
         "comparison (removing a dead division by zero is allowed). Block arguments are never removed by the "
         "code, so a dead cycle through block arguments stays and is not demanded by the oracle (its members "
         "are used by a terminator). A use of a value across blocks that violates dominance (a kept "
@@ -76,13 +109,14 @@ META = {
     "rule": (
         "stream B: seeded random specs (1-5 module-level operations, nesting depth <= 2, 1-4 blocks per "
         "region, 20 operation kinds incl. unregistered operations, also as block-ending branches with successors) plus ALL programs of one block with n <= 2 (quick) / n <= 3 (thorough) "
-        "operations over 7 kinds (5 for n = 3) x every single-operand choice, plus fixed multi-block shapes whose blocks are only reachable through unregistered branch-like operations; positions: ONE operation with recursive effects and an unused result, 3 regions x 2 chained blocks (thorough: 9 region shapes up to 4 regions, also c13.rec_read, unchained blocks, triples), a harmless item (none/read/own-result alloc/nested rec that reads) x an observable item (write/free/unknown/nested rec whose 2nd region writes; thorough also alloc/rw/unregistered/symbol) at EVERY ordered pair of (region, block) positions, same block in both orders, plus the harmless item alone at every position; stream B operations with regions have 1-3 regions, about half of the regions of recursive-effect operations quiet (pure terminators, read / own-alloc / pure leaves); stream A: seeded proggen programs with "
-        "0-3 appended unreachable blocks, 3 input vectors each; stream C: scf.if, scf.while (quick) + scf.if with results, scf.for (thorough) under Sem and scf.index_switch, affine.if (structure + model only) with every assignment of none/load/store/call (thorough also pure/nested scf.if/load+store) to their regions, 3 input vectors taking every region. The histogram keys `*.rec.observable_only_in_later_region(_after_harmless_effects)` / `_later_block` count the operations whose fate is decided by a non-first region / block. A case is non-trivial if some variant "
+        "operations over 7 kinds (5 for n = 3) x every single-operand choice, plus fixed multi-block shapes whose blocks are only reachable through unregistered branch-like operations; positions: ONE operation with recursive effects and an unused result, 3 regions x 2 chained blocks (thorough: 9 region shapes up to 4 regions, also c13.rec_read, unchained blocks, triples), a harmless item (none/read/own-result alloc/nested rec that reads) x an observable item (write/free/unknown/nested rec whose 2nd region writes; thorough also alloc/rw/unregistered/symbol) at EVERY ordered pair of (region, block) positions, same block in both orders, plus the harmless item alone at every position; stream B operations with regions have 1-3 regions, about half of the regions of recursive-effect operations quiet (pure terminators, read / own-alloc / pure leaves); stream A: seeded proggen programs (helpers incl. recursive ones, calls, scf.if/for, half of them also scf.while / loop nests, cf diamonds and loops) with "
+        "0-3 appended unreachable blocks, 3 input vectors each, each also certified by `dcemini` for all five variants; stream C: scf.if, scf.while (quick) + scf.if with results, scf.for (thorough) under Sem and scf.index_switch, affine.if (structure + model only) with every assignment of none/load/store/call (thorough also pure/nested scf.if/load+store) to their regions, 3 input vectors taking every region. The histogram keys `*.rec.observable_only_in_later_region(_after_harmless_effects)` / `_later_block` count the operations whose fate is decided by a non-first region / block. A case is non-trivial if some variant "
         "removes at least one operation or block and at least one operation that is not a terminator stays. "
         "Distinct = distinct (spec or text)."
     ),
     "trusted_base": [
         "correspondence harness harness/props/c13.py (+ c13_ir.py, c13_gen.py): differential, bounded-exhaustive + random",
+        "glue of the driver model dcemini (XdslModel/DCEMini.lean: zipModule, eqFuncs; the zipped tree is re-checked against both inputs)",
         "hand-written Lean model of transforms/dead_code_elimination.py and of get_effects",
         "reference semantics XdslModel/Sem.lean and serialiser harness/vp/miniir.py",
     ],
@@ -169,6 +203,32 @@ class Outcome:
         self.s1: ir.Snap | None = None
         self.module: Any = None
         self.sexp: str | None = None
+
+
+CERT_VARIANTS = ("once", "dce", "canon", "walker", "greedy")
+CERT_CMD = {"once": "once", "dce": "dce", "canon": "dce", "walker": "triv", "greedy": "triv"}
+# answers of the `dcemini` model that mean "this program is outside the proved theorem" (counted), as
+# opposed to a disagreement between the two serialisations / the model and the real pass (reported)
+CERT_UNCOVERED = ("flags-vs-names:", "scope:", "cfg", "func-not-live", "func-body", "sort", "?")   # "?triv": a sweep
+
+
+def cert_lines(case: dict, variant: str) -> list[str] | None:
+    """the three `dcemini` lines of one (program, variant): the MiniIR module before, the model tree (real trait
+    flags) to be zipped with it and certified, the MiniIR module after the REAL pass - both serialised with ONE
+    `Serializer`, so surviving values and blocks keep their ids"""
+    m = ir.build_case(case)
+    num = ir.Numbering(m)
+    try:
+        tree = ir.tree_text(m, num)
+        ser = miniir.Serializer()
+        s0 = ser.module(m)
+        apply_variant(m, variant)
+        s1 = ser.module(m)
+    except (ir.Unsupported, miniir.Unsupported):
+        return None
+    if "\n" in s0 or "\n" in s1:
+        return None
+    return ["prog " + s0, f"cert {CERT_CMD[variant]} {tree}", f"after {CERT_CMD[variant]} " + s1]
 
 
 def run_variant(case: dict, variant: str) -> Outcome:
@@ -381,6 +441,8 @@ def run_batch(ctx: core.Ctx, cases: list[dict], label: str, sem: bool) -> None:
     where: list[tuple[int, str]] = []
     sem_lines: list[str] = []
     sem_where: list[tuple[int, str, int]] = []     # (case index, variant or 'orig', input index)
+    cert_in: list[str] = []
+    cert_where: list[tuple[int, str, int]] = []    # (case index, variant, removed ops + blocks)
     for ci, case in enumerate(cases):
         ctx.count(f"{label}.programs")
         try:
@@ -456,6 +518,13 @@ def run_batch(ctx: core.Ctx, cases: list[dict], label: str, sem: bool) -> None:
                         sem_where.append((ci, v, k))
             except miniir.Unsupported as e:
                 raise core.InfraError(f"C13 stream A program is not serialisable to MiniIR: {e}")
+            for v in CERT_VARIANTS:
+                cl = cert_lines(case, v)
+                if cl is None:
+                    ctx.count(f"{label}.cert.unserialisable")
+                    continue
+                cert_in.extend(cl)
+                cert_where.append((ci, v, removed_count(outs[v])))
     # ---- correspondence with the Lean model
     model = ctx.model("dce", lines)
     for i, (a, b) in enumerate(zip(obs, model)):
@@ -467,6 +536,34 @@ def run_batch(ctx: core.Ctx, cases: list[dict], label: str, sem: bool) -> None:
             ctx.mismatch("correspondence:C13/dce", {**case, "variant": what}, a, b,
                          f"implementation and Lean model disagree on `{what}`")
             break
+    # ---- hypotheses of the proved semantic-preservation theorem (XdslProofs/C13SemCFG.lean) on this program,
+    #      and: the MiniIR program the theorem speaks about IS what the real pass leaves
+    if cert_in:
+        res = ctx.model("dcemini", cert_in)
+        for j, (ci, v, removed) in enumerate(cert_where):
+            r_prog, r_cert, r_after = res[3 * j: 3 * j + 3]
+            ctx.ev()
+            case = {k: x for k, x in cases[ci].items() if k in ("spec", "mlir")}
+            if r_prog != "ok":
+                raise core.InfraError(f"dcemini rejected a program: {r_prog}")
+            if r_cert == "cert ok":
+                ctx.count(f"{label}.cert.{v}.ok")
+                if removed:
+                    ctx.count(f"{label}.cert.{v}.ok_and_removed_something")
+            elif r_cert.startswith("cert no ") and r_cert[8:].startswith(CERT_UNCOVERED):
+                why = r_cert[8:].split(":")[0]
+                ctx.count(f"{label}.cert.{v}.uncovered.{why}")
+                ctx.extra.setdefault("cert_uncovered_examples", {}).setdefault(r_cert[8:], case.get("mlir", "")[:1500])
+            else:
+                ctx.mismatch("correspondence:C13/dcemini", {**case, "variant": v}, "cert ok", r_cert,
+                             "the model tree and the MiniIR serialisation of one module do not fit together "
+                             "(shape, operand owners, ids)")
+                break
+            if r_after != "after ok":
+                ctx.mismatch("correspondence:C13/dcemini", {**case, "variant": v}, "after ok", r_after,
+                             f"`{v}`: the MiniIR program of the model's result is not the serialisation of what the "
+                             "real pass leaves")
+                break
     # ---- reference semantics before / after
     if sem_lines:
         res = ctx.model("sem", sem_lines)
@@ -671,4 +768,9 @@ def replay(ctx: core.Ctx, body: dict) -> int:
             if any(x.startswith("ok ") and x != y for x, y in zip(a[1:], b[1:])):
                 print("property FAILS on this case: program results or effect log changed")
                 rc = 1
+            if v in CERT_CMD:
+                cl = cert_lines(case, v)
+                if cl is not None:
+                    print("hypotheses of the proved Sem theorem / model result = real result:",
+                          ctx.model("dcemini", cl)[1:])
     return rc
